@@ -17,9 +17,9 @@ CHECKS["C11"] = dict(
    note="Trusted: CBMC, lowering rules, intrinsic/SIMD-wrapper models (sample-validated). Stated bound len <= 2^31-1 (2^31-65 for container skipping). Undecided residue is listed in the evidence file under 'undecided'.",
    technique="CBMC function contracts + loop contracts (DFCC) on mechanically sliced C; callers checked against callee contracts")
 CHECKS["C14"] = dict(
-   text="Complete proofs (all s < 32, all byte contents, all page offsets of both operands in whole-page objects, production and sanitizer preprocessor paths) that in_page_32 / is_eq_lt_32 / cross-page fallback / cmp_lt_32 never read past the page objects and return exactly byte equality / the sign of memcmp; unbounded loop-contract proofs for InlinedMemcmpEq and InlinedMemcmp on exact-size heap blocks (any s >= 32); dispatch for s < 32 proved against the kernels as uninterpreted functions; sse forwarders equal libc memcmp. Sign of InlinedMemcmp for s >= 32 is a bounded stand-in (s <= 159).",
+   text="Complete proofs (all s < 32, all byte contents, all page offsets of both operands in whole-page objects, production and sanitizer preprocessor paths) that in_page_32 / is_eq_lt_32 / cross-page fallback / cmp_lt_32 never read past the page objects and return exactly byte equality / the sign of memcmp; unbounded loop-contract proofs for InlinedMemcmpEq and InlinedMemcmp on exact-size heap blocks (any s >= 32); dispatch for s < 32 proved against the kernels as uninterpreted functions; sse forwarders equal libc memcmp. Sign of InlinedMemcmp and exact result of InlinedMemcmpEq for s >= 32 are bounded stand-ins (s <= 159). The map comparator DNode::Less is proved against InlinedMemcmp's contract (equivalence = same length and bytes) and findMemberImpl's linear scan is checked bounded (<= 4 members) against InlinedMemcmpEq's contract (first member with equal length and bytes).",
    design_ref="DESIGN.md section 5 (C14)",
-   note="Trusted: CBMC, lowering, intrinsic models, libc memcmp, page model (objects are whole 4096-byte pages; pointer low bits == offset low bits). movemask+1 signed wrap is an observation. findMemberImpl/Less callers and std::multimap are not under contract (DOM classes).",
+   note="Trusted: CBMC, lowering, intrinsic models, libc memcmp, page model (objects are whole 4096-byte pages; pointer low bits == offset low bits). movemask+1 signed wrap is an observation. std::multimap and the DOM member storage are stubs/assumed.",
    technique="CBMC contract proofs: complete loop-free harnesses over symbolic page offsets + DFCC loop contracts with ghost indices")
 
 CHECKS["C16"] = dict(
